@@ -276,3 +276,244 @@ func ineffectiveBreak(ctx *core.Ctx, r *core.Report, pkgs ...string) int {
 	}
 	return n
 }
+
+// c06RefineAppliesToTarget (C06, C01): every property a refine statement states
+// is handed to the Builder together with the refine's target as it is — the
+// Builder's own dispatch knows which node kinds can carry it and reports the
+// others. A call that passes a narrowed value (target.(*List)) silently drops
+// the statement for the kinds the narrowing leaves out (max-elements unbounded on
+// a leaf-list).
+func c06RefineAppliesToTarget(ctx *core.Ctx, r *core.Report) {
+	f := ctx.Method("meta", "resolver", "refine")
+	if f == nil || len(f.Params) < 2 {
+		r.Fatalf("anchor meta.resolver.refine not found")
+		return
+	}
+	target := f.Params[1]
+	n := 0
+	for _, c := range core.CallSites(f) {
+		cal := core.StaticCallee(c)
+		if cal == nil || cal.Signature.Recv() == nil {
+			continue
+		}
+		if rn := core.NamedOf(cal.Signature.Recv().Type()); rn == nil || rn.Obj().Name() != "Builder" || cal.Name() == "setErr" {
+			continue
+		}
+		args := c.Common().Args
+		if len(args) < 2 {
+			continue
+		}
+		n++
+		a := args[1]
+		if mi, ok := a.(*ssa.MakeInterface); ok {
+			a = mi.X
+		}
+		if ci, ok := a.(*ssa.ChangeInterface); ok {
+			a = ci.X
+		}
+		// also not under a type test of the target
+		narrowed := a != ssa.Value(target)
+		for _, pc := range core.PathConds(c.Block()) {
+			if ex, ok := pc.V.(*ssa.Extract); ok {
+				if ta, ok := ex.Tuple.(*ssa.TypeAssert); ok && ta.X == ssa.Value(target) {
+					narrowed = true
+				}
+			}
+		}
+		r.Ob("refine-applies-to-target", "meta.resolver.refine/"+cal.Name(), ctx.Pos(c.Pos()), !narrowed,
+			"the refine's "+cal.Name()+" is applied only to some node kinds (a type test of the target) instead of being handed to the Builder with the target as it is: for the other kinds that can carry the property the statement is silently dropped")
+	}
+	r.Floor("refine-applies-to-target", n, 7)
+}
+
+// c06BuilderStoresVerbatim: what the grammar hands to a Builder method is already
+// decoded (rule decode-once); the Builder stores its string arguments as they
+// are. A string argument that reaches a schema field through a slicing or a
+// trimming/replacing helper is altered a second time: quote characters that
+// belong to the value are stripped.
+func c06BuilderStoresVerbatim(ctx *core.Ctx, r *core.Report) {
+	// functions that return a re-sliced / trimmed version of their string parameter
+	var lossy func(f *ssa.Function, depth int) bool
+	lossy = func(f *ssa.Function, depth int) bool {
+		if f == nil || depth > 2 {
+			return false
+		}
+		if f.Pkg != nil && f.Pkg.Pkg.Path() == "strings" {
+			switch f.Name() {
+			case "TrimSpace", "Trim", "TrimLeft", "TrimRight", "TrimPrefix", "TrimSuffix", "TrimFunc", "ToLower", "ToUpper", "Replace", "ReplaceAll", "Title", "Map":
+				return true
+			}
+			return false
+		}
+		if strings.HasSuffix(f.Name(), "Unquote") {
+			return true
+		}
+		if len(f.Blocks) == 0 || !core.InRepo(core.FnPkgPath(f)) {
+			return false
+		}
+		res := f.Signature.Results()
+		if res.Len() != 1 || !isStringType(res.At(0).Type()) {
+			return false
+		}
+		hit := false
+		for _, ret := range core.Returns(f) {
+			for _, leaf := range core.PhiLeaves(core.RetOperands(ret)[0], ret.Block()) {
+				switch x := leaf.V.(type) {
+				case *ssa.Slice:
+					if _, isP := x.X.(*ssa.Parameter); isP {
+						hit = true
+					}
+				case *ssa.Call:
+					if lossy(x.Common().StaticCallee(), depth+1) {
+						hit = true
+					}
+				}
+			}
+		}
+		return hit
+	}
+	n := 0
+	for _, f := range scopeFuncs(ctx, "meta", "builder.go") {
+		rv := f.Signature.Recv()
+		if rv == nil || core.NamedOf(rv.Type()) == nil || core.NamedOf(rv.Type()).Obj().Name() != "Builder" {
+			continue
+		}
+		var strParams []*ssa.Parameter
+		for _, p := range f.Params[1:] {
+			if isStringType(p.Type()) {
+				strParams = append(strParams, p)
+			}
+		}
+		if len(strParams) == 0 {
+			continue
+		}
+		// every value stored into a field of a schema struct (store or composite literal)
+		core.Instrs(f, func(_ *ssa.BasicBlock, in ssa.Instruction) {
+			st, ok := in.(*ssa.Store)
+			if !ok || !isStringType(st.Val.Type()) {
+				return
+			}
+			fa, ok := st.Addr.(*ssa.FieldAddr)
+			if !ok {
+				return
+			}
+			owner := core.NamedOf(fa.X.Type())
+			if owner == nil || owner.Obj().Pkg() == nil || owner.Obj().Pkg().Path() != core.Full("meta") {
+				return
+			}
+			// does the stored string come from a parameter through a lossy step?
+			var via string
+			seen := map[ssa.Value]bool{}
+			var walk func(v ssa.Value, d int) bool // reaches a string parameter
+			walk = func(v ssa.Value, d int) bool {
+				if v == nil || seen[v] || d > 6 {
+					return false
+				}
+				seen[v] = true
+				switch x := v.(type) {
+				case *ssa.Parameter:
+					for _, p := range strParams {
+						if p == x {
+							return true
+						}
+					}
+				case *ssa.Slice:
+					if walk(x.X, d+1) {
+						via = "a re-slicing"
+						return true
+					}
+				case *ssa.Call:
+					cal := x.Common().StaticCallee()
+					for _, a := range x.Common().Args {
+						if walk(a, d+1) {
+							if lossy(cal, 0) {
+								via = core.CalleeName(x)
+							}
+							return true
+						}
+					}
+				case *ssa.Phi:
+					hit := false
+					for _, e := range x.Edges {
+						if walk(e, d+1) {
+							hit = true
+						}
+					}
+					return hit
+				case *ssa.UnOp:
+					return walk(x.X, d+1)
+				case *ssa.IndexAddr:
+					return walk(x.X, d+1)
+				case *ssa.Extract:
+					return walk(x.Tuple, d+1)
+				}
+				return false
+			}
+			if !walk(st.Val, 0) {
+				return
+			}
+			n++
+			fld := core.Deref(fa.X.Type()).Underlying().(*types.Struct).Field(fa.Field).Name()
+			r.Ob("builder-stores-verbatim", core.FnName(f)+"/"+owner.Obj().Name()+"."+fld, ctx.Pos(st.Pos()), via == "",
+				"the Builder alters the string it is given ("+via+") before storing it in "+owner.Obj().Name()+"."+fld+": the grammar has already decoded the argument, so characters that belong to the value (quotes inside a quoted argument) are removed")
+		})
+	}
+	r.Floor("builder-stores-verbatim", n, 20)
+}
+
+func isStringType(t types.Type) bool {
+	b, ok := t.Underlying().(*types.Basic)
+	return ok && b.Info()&types.IsString != 0
+}
+
+// c06CommentTerminator: the end of a block comment is the two-character
+// sequence "*/" at some position. acceptWS finds it by testing the text at the
+// current position against that sequence (strings.HasPrefix/Index with the
+// constant), one position at a time. Reading two single characters instead
+// (`r == '*' && next() == '/'`) consumes the second one when it does not match:
+// in `**/` the star that belongs to the terminator is swallowed as the failed
+// look-ahead of the star before it, the comment does not end, and statements up
+// to the next "*/" disappear.
+func c06CommentTerminator(ctx *core.Ctx, r *core.Report) {
+	f := ctx.Method("parser", "lexer", "acceptWS")
+	next := ctx.Method("parser", "lexer", "next")
+	if f == nil || next == nil {
+		r.Fatalf("anchors parser.lexer.acceptWS / next not found")
+		return
+	}
+	byString := false
+	for _, c := range core.CallSites(f) {
+		cal := core.StaticCallee(c)
+		if cal == nil || cal.Pkg == nil || cal.Pkg.Pkg.Path() != "strings" {
+			continue
+		}
+		for _, a := range c.Common().Args {
+			if s, ok := core.ConstString(a); ok && s == "*/" && loopBlocks(c.Block()) != nil {
+				byString = true
+			}
+		}
+	}
+	r.Ob("comment-terminator", "parser.lexer.acceptWS/matches-two-characters-at-a-position", ctx.Pos(f.Pos()), byString,
+		"the block-comment scan no longer tests the text at the current position against the terminator \"*/\" as a whole")
+	// no single-character look-ahead for a comment delimiter
+	n := 0
+	for _, c := range callsStatic(f, next, false) {
+		v := c.Value()
+		if v == nil || v.Referrers() == nil {
+			continue
+		}
+		for _, ref := range *v.Referrers() {
+			bo, ok := ref.(*ssa.BinOp)
+			if !ok || (bo.Op != token.EQL && bo.Op != token.NEQ) {
+				continue
+			}
+			for _, op := range []ssa.Value{bo.X, bo.Y} {
+				if k, isC := core.ConstInt(op); isC && (k == '/' || k == '*') {
+					n++
+					r.Ob("comment-terminator", fmt.Sprintf("parser.lexer.acceptWS/single-character-lookahead#%d", n), ctx.Pos(c.Pos()), false,
+						"a comment delimiter is recognised by reading one more character and comparing it: when it does not match, that character has been consumed and is never tested as the start of the delimiter itself (`**/` does not end the comment)")
+				}
+			}
+		}
+	}
+}
